@@ -675,6 +675,17 @@ def sep (a b : ProgW K) : ProgW K :=
         (sc1 (.asin (.var 0))
           (nscale half (norm (sub (unit a) (smul (unit b) (sc1 (.sgn (.var 0)) (dot (unit a) (unit b)))))))))
       (nscale pi (sc1 (.isneg (.var 0)) (sc1 (.sgn (.var 0)) (dot (unit a) (unit b)))))
+/-- `Vector3.from_ra_dec_length` without a length / with the Python number 1. (vector3.py:86-113):
+    `from_scalars(cos(dec)*cos(ra), cos(dec)*sin(ra), sin(dec))` -/
+def fromRaDec (ra dec : ProgW K) : ProgW K :=
+  cat (cat (smul (sc1 (.cos (.var 0)) dec) (sc1 (.cos (.var 0)) ra))
+           (smul (sc1 (.cos (.var 0)) dec) (sc1 (.sin (.var 0)) ra)))
+      (sc1 (.sin (.var 0)) dec)
+/-- … with a length: `Scalar.as_scalar(length) * result` -/
+def fromRaDecLength (ra dec len : ProgW K) : ProgW K := smul (fromRaDec ra dec) len
+/-- `Vector3.from_cylindrical` (vector3.py:134-154): `from_scalars(r*cos(lon), r*sin(lon), z)` -/
+def fromCylindrical (r lon z : ProgW K) : ProgW K :=
+  cat (cat (smul r (sc1 (.cos (.var 0)) lon)) (smul r (sc1 (.sin (.var 0)) lon))) z
 def twovec (axis1 axis2 : Nat) (v1 v2 : ProgW K) : ProgW K :=
   let u1 := unit v1
   let u3 := if (3 + axis2 - axis1) % 3 = 1 then ucross u1 v2 else ucross v2 u1
